@@ -11,7 +11,7 @@ from collections import Counter, defaultdict
 
 import networkx as nx
 
-from ..common import Result, sut, digest
+from ..common import Result, sut, digest, tight_stack_call
 from ..graphs import build_clean_network, snapshot, same_snapshot
 
 ID = "C13"
@@ -22,7 +22,7 @@ RULE = ("annotated simple networks: (a) clean motif networks from the harness bu
         "non-trivial = a history with >= 2 calls on one extractor and >= 2 distinct excess classes; distinct = SHA-1 of the annotated graph + history")
 ASSUMPTIONS = ["matrix entries compared at 1e-12; an absent key means 0", "the law is stated in terms of the vertex annotation, so arbitrary annotations are in scope"]
 HEADLINE = ["histories", "get_ejks_calls", "hook_hits", "matrices_compared", "entries_compared", "repeat_calls", "self_paired_entries", "overall_variant_checks",
-            "arbitrary_annotation", "builder_networks", "single_edge_topology", "in_place_rewirings", "scrambled_vertex_order_or_labels", "extractors_with_a_prefix_of_the_names"]
+            "arbitrary_annotation", "builder_networks", "single_edge_topology", "in_place_rewirings", "scrambled_vertex_order_or_labels", "extractors_with_a_prefix_of_the_names", "overall_variant_hub_graphs", "extractions_aborted_by_injected_fault", "tight_stack_extractions_completed"]
 REQUIRED = {t: {"repeat_calls": 50, "hook_hits": 100, "self_paired_entries": 50, "overall_variant_checks": 50, "arbitrary_annotation": 20,
                 "builder_networks": 20, "single_edge_topology": 5, "in_place_rewirings": 20, "scrambled_vertex_order_or_labels": 30, "overall_variant_hub_graphs": 10} for t in ("quick", "thorough")}
 TOL = 1e-12
@@ -232,6 +232,10 @@ def run_case(case):
                 refs[gi] = reference(G, names)
                 snaps[gi] = snapshot(G)
                 first = {k: v for k, v in first.items() if extractors[k][0] != gi}
+        if rng.random() < 0.12:
+            # injected fault: an extraction aborted by RecursionError somewhere inside (tight stack), caught by the caller, who asks again
+            st, _ = tight_stack_call(ex.get_ejks, rng.randint(3, 12))
+            res.count("extractions_aborted_by_injected_fault" if st == "aborted" else "tight_stack_extractions_completed")
         h0 = _hook["hits"]
         r = sut("get_ejks", ex.get_ejks)
         res.count("get_ejks_calls")
